@@ -65,6 +65,7 @@ G0 == [ sc      |-> "none",
         attr    |-> <<>>,      \* client -> [deadline, write_time] expected from s3db_conn
         lastcut |-> <<>>,      \* client -> cutoff of its last successful vacuum
         vgone   |-> {},        \* versions removed from root/merged/ (only a vacuum does that)
+        snaps   |-> <<>>,      \* bucket snapshots taken by the scenario: name -> [cur, mrg, vgone]
         stepdel |-> <<>>,      \* client -> version tokens it DELETEd during the current API call
         reachb  |-> <<>>,      \* version token -> nodes it reached at the last `reach` tagged "before"
         txins   |-> <<>>,      \* client -> keys it INSERTed since BEGIN (or in the current autocommit statement)
@@ -531,6 +532,11 @@ OnOrderDone(e) ==
       v |-> (IF anti # {} THEN V("C07", "C07_Antisym", e, anti) ELSE {})
             \cup (IF trans # {} THEN V("C07", "C07_Trans", e, trans) ELSE {})]
 
+(* the scenario saves / reinstates the whole bucket (to try several continuations from one state) *)
+OnSnapshot(e) == [g2 |-> [g EXCEPT !.snaps = Put(@, e.name, [cur |-> g.cur, mrg |-> g.mrg, vgone |-> g.vgone])], v |-> {}]
+OnRestore(e) == [g2 |-> IF e.name \in DOMAIN g.snaps
+                        THEN [g EXCEPT !.cur = g.snaps[e.name].cur, !.mrg = g.snaps[e.name].mrg, !.vgone = g.snaps[e.name].vgone]
+                        ELSE g, v |-> {}]
 OnPlan(e) == [g2 |-> [g EXCEPT !.fault = @ \cup {e.c}], v |-> {}]
 OnHeal(e) == [g2 |-> [g EXCEPT !.fault = @ \ {e.c}], v |-> {}]
 
@@ -561,6 +567,8 @@ Handle(e) ==
     [] e.ev = "sql"        -> OnSql(e)
     [] e.ev = "order"      -> OnOrder(e)
     [] e.ev = "order_done" -> OnOrderDone(e)
+    [] e.ev = "snapshot"   -> OnSnapshot(e)
+    [] e.ev = "restore"    -> OnRestore(e)
     [] e.ev = "plan"       -> OnPlan(e)
     [] e.ev = "heal"       -> OnHeal(e)
     [] e.ev \in {"panic", "hang"} -> OnPanic(e)
